@@ -7,6 +7,21 @@ V = os.path.dirname(os.path.dirname(os.path.abspath(__file__)))
 props = [json.loads(l) for l in open(os.path.join(V, 'properties.jsonl'))]
 
 CLAIMED = {
+    'C09': dict(
+        text='Media.tla specifies MUL/MLA/MLS, the long, halfword, dual and most-significant-word multiplies, SDIV/UDIV, '
+             'QADD/QSUB/QDADD/QDSUB, SSAT/USAT(16), the 36 parallel add/subtract forms with GE, SEL, USAD8/USADA8, the extend and '
+             'extend-and-add forms, BFC/BFI/SBFX/UBFX, PKH, REV/REV16/REVSH/RBIT/CLZ on the limb library that MC_W32 (TLC, '
+             'exhaustive at limb width 4: products, signed products, division, 64-bit add/sub/compare) links to the reference. '
+             'Random ARM, 16-bit and 32-bit Thumb words of all these encodings with operands biased to lane boundaries '
+             '(0x7F/0x80/0xFF, 0x7FFF/0x8000), 0, 0x80000000, 0xFFFFFFFF, prior Q/GE random, arch 5/6/7/7-R, are executed by '
+             'emulate_cycle() and the full post-state (result registers, N/Z, sticky Q, GE, everything else unchanged) is '
+             'judged by TLC.',
+        note='operands are sampled; the 8/16-bit lane formulas are plain integer arithmetic in the spec (no second '
+             'formulation yet); UNPREDICTABLE register choices are envelope-only; on ARMv4 C/V after MULS/long multiplies are '
+             'UNKNOWN (don\'t-care).',
+        technique='TLA+ machine specification on TLC-checked limb arithmetic + TLC trace validation',
+        ref='DESIGN.md §4 C09'),
+
     'C15': dict(
         text='MC_VMSA: TLC checks the short-descriptor walk, domain and permission checks of VMSA.tla against the property per '
              'descriptor type (fault, page table -> fault / large / small page, section, supersection) x AP/APX x domain x DACR '
